@@ -100,7 +100,8 @@ class World(object):
             from .stategraph import parse_action
             name, args = parse_action(label)
             self.peer(name, args)
-            self.log(e='peer', a=label)
+            if not name.startswith('Thread'):       # thread steps log what really happened themselves
+                self.log(e='peer', a=label)
 
     def before_reader_step(self):
         self.peers_until_marker()
@@ -556,3 +557,150 @@ class PopenWorld(World):
             self.child.proc.stdout.close()
         except Exception:
             pass
+
+
+class GatedPopenWorld(World):
+    """PopenSpawn('cat') with the reader THREAD under schedule control: its os.read() on the pipe and
+    its queue.put() each wait for a permit ('T' items of the schedule), the reader's get_nowait()
+    calls are the reader steps ('R').  Peer writes go to cat's stdin and are complete (visible in
+    the pipe, checked with FIONREAD) before the schedule goes on."""
+
+    def __init__(self, workdir, unit=lambda i: bytes([65 + i % 26])):
+        import threading, queue as _queue, fcntl, termios, struct
+        from pexpect import popen_spawn
+        World.__init__(self)
+        self.unit = unit
+        self.written = b''
+        self.nunits = 0
+        self.nread = 0          # bytes the thread took from the pipe
+        self.peer_open = True
+        self.peer_exited = False
+        self.permit = threading.Semaphore(0)
+        self.done = threading.Semaphore(0)
+        self.free_run = False
+        self.tphase = 'read'
+        self.teof = False
+        self.tdone = False
+        world = self
+        main = threading.current_thread()
+
+        class OsProxy(object):
+            def read(self_, fd, n):
+                if threading.current_thread() is not main and not world.free_run:
+                    world.permit.acquire()
+                    if world.free_run:
+                        return os.read(fd, n)
+                    data = os.read(fd, n)
+                    world.nread += len(data)
+                    world.log(e='step', k='tread', n=len(data), plo=world.nread)
+                    world.done.release()
+                    return data
+                return os.read(fd, n)
+
+            def __getattr__(self_, name):
+                return getattr(os, name)
+
+        class GQueue(_queue.Queue):
+            def put(self_, item, *a, **k):
+                if threading.current_thread() is not main and not world.free_run:
+                    world.permit.acquire()
+                    r = _queue.Queue.put(self_, item, *a, **k)
+                    if not world.free_run:
+                        world.log(e='step', k='tput', qlen=self_.qsize())
+                        world.done.release()
+                    return r
+                return _queue.Queue.put(self_, item, *a, **k)
+
+            def get_nowait(self_):
+                if world.active:
+                    world.before_reader_step()
+                    try:
+                        item = _queue.Queue.get_nowait(self_)
+                    except _queue.Empty:
+                        world.log(e='step', k='qget', n=-1, qlen=self_.qsize())
+                        raise
+                    world.log(e='step', k='qget', n=0 if item is None else len(item), qlen=self_.qsize())
+                    return item
+                return _queue.Queue.get_nowait(self_)
+
+        self._saved = (popen_spawn.os, popen_spawn.Queue)
+        popen_spawn.os = OsProxy()
+        popen_spawn.Queue = GQueue
+        self.child = popen_spawn.PopenSpawn(['/bin/cat'], timeout=5)
+        self.child.delayafterread = None
+        self.reader_fd = -1
+        self.pipe_fd = self.child.proc.stdout.fileno()
+        self._fionread = lambda: struct.unpack('i', fcntl.ioctl(self.pipe_fd, termios.FIONREAD, b'\0\0\0\0'))[0]
+        self.clock.install(pexpect.expect, pexpect.utils, popen_spawn)
+
+    def observe(self):
+        return {}
+
+    def thread_step(self):
+        self.permit.release()
+        if not self.done.acquire(timeout=10):
+            raise RuntimeError('reader thread did not complete its step')
+
+    def _spin(self, cond):
+        import time as _t
+        t0 = _t.time()
+        while not cond():
+            if _t.time() - t0 > 10:
+                raise RuntimeError('peer action did not take effect')
+            _t.sleep(0.0005)
+
+    def peer(self, name, args):
+        if name == 'PeerWrite':
+            data = b''.join(self.unit(self.nunits + i) for i in range(args[0]))
+            self.nunits += args[0]
+            os.write(self.child.proc.stdin.fileno(), data)
+            self.written += data
+            self._spin(lambda: self._fionread() >= len(self.written) - self.nread)
+        elif name == 'PeerClose':
+            self.child.proc.stdin.close()
+            self.peer_open = False
+            self.child.proc.wait()           # cat has exited: its end of the pipe is closed
+            self.peer_exited = True
+        elif name in ('ThreadRead', 'ThreadPut'):
+            # the real thread reads everything the pipe holds in one os.read; a behaviour of the model in
+            # which it took less has further thread steps that have no counterpart: skip those
+            want = 'read' if name == 'ThreadRead' else 'put'
+            if want != self.tphase or self.tdone:
+                return
+            if want == 'read' and self._fionread() == 0 and self.peer_open:
+                return
+            at_eof = (want == 'read' and self._fionread() == 0 and not self.peer_open)
+            self.thread_step()
+            if want == 'put' and self.teof:
+                self.tdone = True                  # the sentinel is queued: the thread has returned
+            if want == 'read':
+                self.teof = at_eof
+            self.tphase = 'put' if want == 'read' else 'read'
+        else:
+            raise ValueError(name)
+
+    def close(self):
+        from pexpect import popen_spawn
+        self.free_run = True
+        for _ in range(8):
+            self.permit.release()
+        try:
+            self.child.proc.stdin.close()
+        except Exception:
+            pass
+        try:
+            self.child.proc.kill()
+        except Exception:
+            pass
+        try:
+            self.child.proc.wait()
+        except Exception:
+            pass
+        try:
+            self.child._read_thread.join(timeout=2)
+            self.child.proc.stdout.close()
+        except Exception:
+            pass
+        popen_spawn.os, popen_spawn.Queue = self._saved
+        self.clock.uninstall()
+        self.active = False
